@@ -164,6 +164,11 @@ pub enum SCmd {
 pub enum Step {
     /// a fresh `Sodg::empty(cap)` in slot `i`
     Empty { i: usize },
+    /// the same with a capacity of its own (graphs of different capacities meet in merge())
+    EmptyCap { i: usize, cap: usize },
+    /// put() of a datum in a non-canonical representation: 1 = `Hex::Vector` whatever the length,
+    /// 2 = `Hex::Bytes` with non-zero padding behind the used prefix (length <= 8)
+    PutRaw { i: usize, v: Id, d: Vec<u8>, enc: u8 },
     Add { i: usize, v: Id },
     Bind { i: usize, a: Id, b: Id, l: PLabel },
     Put { i: usize, v: Id, d: Vec<u8> },
@@ -183,7 +188,15 @@ pub enum Step {
     },
     Merge { dst: usize, src: usize, left: Id, right: Id },
     /// a script with at most one `$variable` (X), rendered with formatting `style`
-    Script { i: usize, cmds: Vec<SCmd>, style: u8, var: usize },
+    Script {
+        i: usize,
+        cmds: Vec<SCmd>,
+        style: u8,
+        var: usize,
+        /// the name of the variable in the text (empty = `x`)
+        #[serde(default)]
+        name: String,
+    },
     Save { i: usize, path: usize, fault: WFault },
     Load { path: usize, dst: usize, fault: RFault, link: Option<usize> },
     /// the process dies; every un-synced file is reduced as listed (by path);
@@ -202,10 +215,10 @@ pub enum Step {
 impl Step {
     pub fn kind(&self) -> &'static str {
         match self {
-            Self::Empty { .. } => "empty",
+            Self::Empty { .. } | Self::EmptyCap { .. } => "empty",
             Self::Add { .. } => "add",
             Self::Bind { .. } => "bind",
-            Self::Put { .. } => "put",
+            Self::Put { .. } | Self::PutRaw { .. } => "put",
             Self::Data { .. } => "data",
             Self::NextId { .. } => "next_id",
             Self::Clone { .. } => "clone",
